@@ -272,7 +272,7 @@ Vector Spherical_Coordinates(double r, double theta, double phi)
 Vector Spherical_Coordinates(double r, double theta, double phi, const Vector& axis)
 {
 	libphysica::Vector ev = axis.Normalized();
-	double aux			  = sqrt(ev[0] * ev[0] + ev[1] * ev[1]);
+	double aux			  = std::hypot(ev[0], ev[1]);
 	if(axis.Norm() == 0.0 || (aux == 0.0 && ev[2] > 0.0))
 		return Spherical_Coordinates(r, theta, phi);
 	else if(aux == 0.0)
@@ -284,7 +284,7 @@ Vector Spherical_Coordinates(double r, double theta, double phi, const Vector& a
 	else
 	{
 		double cos_theta = cos(theta);
-		double sin_theta = sqrt(1.0 - cos_theta * cos_theta);
+		double sin_theta = sin(theta);
 		double cos_phi	 = cos(phi);
 		double sin_phi	 = sin(phi);
 
